@@ -628,8 +628,9 @@ class Interp:
         raise Unsupported(f"call of {fn!r}")
 
     def call_function(self, fv, args, kwargs):
-        c = self.contracts.get(fv.qualname_key() if hasattr(fv, "qualname_key") else _fkey(fv))
-        if c is not None and not getattr(self, "_inline_" + _fkey(fv).replace(".", "_").replace(":", "_"), False):
+        key = _fkey(fv)
+        c = self.contracts.get(key)
+        if c is not None and key not in getattr(self, "inline", ()):
             return c(self, fv, args, kwargs)
         return self.run_function(fv, args, kwargs)
 
